@@ -11,4 +11,5 @@ with V.Lock():
     if rc != 0:
         print('setup: Coq build failed', file=sys.stderr); sys.exit(1)
     V.build_model_driver()
+    V.build_linuxport(); V.build_race()
 print('setup ok')
